@@ -54,6 +54,12 @@ Fixpoint upd {A} (l : list A) (n : nat) (x : A) : list A :=
 (* Python  l[lo:hi]  for 0 <= lo, hi *)
 Definition slice {A} (lo hi : nat) (l : list A) : list A := firstn (hi - lo) (skipn lo l).
 
+(* Python  [l[i] for i in idxs] : a general slice  l[start:stop:step]  selects the entries at
+   range( *slice(start, stop, step).indices(len(l)) )  (built-in list semantics; the harness computes this index
+   list with Python's own slice.indices); an index out of range selects nothing *)
+Definition sel {A} (idxs : list nat) (l : list A) : list A :=
+  flat_map (fun i => match nth_error l i with Some x => [x] | None => [] end) idxs.
+
 (* keep the entries whose flag is true *)
 Fixpoint filter_by {A} (bs : list bool) (l : list A) : list A :=
   match bs, l with
@@ -188,7 +194,15 @@ Inductive op :=
 | OTrNewL (is : list nat) (j : nat)                  (* K.append(DropletTrack([H[i]...], times=TV[j])) *)
 | OTlistNew (ts : list Q)                            (* TV.append([...]): the caller creates a list of times *)
 | OTlistAppend (j : nat) (q : Q)                     (* TV[j].append(q) *)
-| OTlistSet (j i : nat) (q : Q).                     (* TV[j][i] = q *)
+| OTlistSet (j i : nat) (q : Q)                      (* TV[j][i] = q *)
+| OEmCtor (is : list nat) (dt : option nat) (copy force : bool)
+      (* E.append(Emulsion([H[i]...], copy=, dtype=<taken from H[dt]>, force_consistency=)); with is = [] and
+         copy = false also Emulsion.empty(H[dt]).  The dtype may be spelled as a droplet, a numpy dtype or an array *)
+| OEmClone (c : nat)                                 (* E.append(copy.copy / copy.deepcopy / pickle round trip of E[c]) *)
+| OSel (c : nat) (idxs : list nat)                   (* E.append(E[c][start:stop:step]), idxs = selected indices *)
+| OTcSel (t : nat) (idxs : list nat)                 (* T.append(T[t][start:stop:step]) *)
+| OTrSel (k : nat) (idxs : list nat)                 (* K.append(K[k][start:stop:step]) *)
+| OTcClone (t : nat).                                (* T.append(copy.deepcopy / pickle round trip of T[t]) *)
 
 (* ---- droplets ---- *)
 
@@ -364,6 +378,48 @@ Definition exec_remove_overlap h c (removed : list nat) : heap * outcome :=
               end
   end.
 
+(* ---- constructor, clones, general slices ---- *)
+
+(* Emulsion(droplets, copy=, dtype=, force_consistency=): a new emulsion with the given dtype, then extend.
+   When extend raises the constructor raises: no emulsion object comes into existence and (the droplets
+   appended so far being copies or the caller's untouched objects) nothing else has changed *)
+Definition construct h (dt : option dtype) (ls : list loc) (copy force : bool) : heap * outcome :=
+  match extend_locs (push_em h (mkE dt [])) (length (ems h)) ls copy force with
+  | (h1, Ok) => (h1, Ok)
+  | (_, Err x) => (h, Err x)
+  end.
+
+Definition exec_emctor h (is : list nat) (dt : option nat) copy force : heap * outcome :=
+  match mapM (nth_error (hnd h)) is with
+  | None => (h, Err EIndex)
+  | Some ls =>
+    match dt with
+    | None => construct h None ls copy force
+    | Some i => match nth_error (hnd h) i with
+                | None => (h, Err EIndex)
+                | Some l => match val_of h l with
+                            | None => (h, Err EDangling)
+                            | Some v => construct h (Some (dtype_of v)) ls copy force
+                            end
+                end
+    end
+  end.
+
+(* copy.copy(e), copy.deepcopy(e), pickle.loads(pickle.dumps(e)): the reconstruction goes through
+   Emulsion.append / Emulsion.extend with the default copy=True (Emulsion is a list subclass), the dtype
+   attribute is taken over: new emulsion, new droplet objects, new records, also for the shallow copy *)
+Definition exec_emclone h c : heap * outcome :=
+  match nth_error (ems h) c with
+  | None => (h, Err EIndex)
+  | Some e => construct h (e_dtype e) (e_mem e) true false
+  end.
+
+Definition exec_sel h c (idxs : list nat) : heap * outcome :=
+  match nth_error (ems h) c with
+  | None => (h, Err EIndex)
+  | Some e => new_em_from h (sel idxs (e_mem e))
+  end.
+
 (* ---- linked data ---- *)
 
 Definition all_eqb {A} (eqb : A -> A -> bool) (l : list A) : bool :=
@@ -529,6 +585,41 @@ Definition exec_tcclear h t : heap * outcome :=
   | Some _ => (set_tc (alloc_tl h []) t (mkTC (length (tlists h)) []), Ok)
   end.
 
+Definition exec_tcsel h t (idxs : list nat) : heap * outcome :=
+  match nth_error (tcs h) t with
+  | None => (h, Err EIndex)
+  | Some tc =>
+    match times_of h (tc_tl tc), mapM (nth_error (ems h)) (sel idxs (tc_ems tc)) with
+    | Some ts, Some es => build_tc h es (sel idxs ts)
+    | _, _ => (h, Err EDangling)
+    end
+  end.
+
+(* copy.deepcopy(tc) / pickle round trip: every emulsion is cloned (dtype taken over), the times list is a new
+   list object; no constructor runs, so there is no length check *)
+Fixpoint clone_ems h (es : list emul) : heap * outcome :=
+  match es with
+  | [] => (h, Ok)
+  | e :: r => match construct h (e_dtype e) (e_mem e) true false with
+              | (h1, Ok) => clone_ems h1 r
+              | (h1, Err x) => (h1, Err x)
+              end
+  end.
+
+Definition exec_tcclone h t : heap * outcome :=
+  match nth_error (tcs h) t with
+  | None => (h, Err EIndex)
+  | Some tc =>
+    match times_of h (tc_tl tc), mapM (nth_error (ems h)) (tc_ems tc) with
+    | Some ts, Some es =>
+      match clone_ems h es with
+      | (h1, Ok) => (push_tc (alloc_tl h1 ts) (mkTC (length (tlists h)) (new_cids h (length es))), Ok)
+      | (_, Err x) => (h, Err x)
+      end
+    | _, _ => (h, Err EDangling)
+    end
+  end.
+
 (* ---- tracks ---- *)
 
 (* DropletTrack.append compares the dimension with that of the last member *)
@@ -599,6 +690,16 @@ Definition exec_trslice h k lo hi : heap * outcome :=
   | Some tr =>
     match vals_of h (slice lo hi (tr_drops tr)), times_of h (tr_tl tr) with
     | Some vs, Some ts => build_tr h vs (slice lo hi ts)
+    | _, _ => (h, Err EDangling)
+    end
+  end.
+
+Definition exec_trsel h k (idxs : list nat) : heap * outcome :=
+  match nth_error (trs h) k with
+  | None => (h, Err EIndex)
+  | Some tr =>
+    match vals_of h (sel idxs (tr_drops tr)), times_of h (tr_tl tr) with
+    | Some vs, Some ts => build_tr h vs (sel idxs ts)
     | _, _ => (h, Err EDangling)
     end
   end.
@@ -703,6 +804,12 @@ Definition exec (h : heap) (o : op) : heap * outcome :=
   | OTlistNew ts => exec_tlistnew h ts
   | OTlistAppend j q => exec_tlistappend h j q
   | OTlistSet j i q => exec_tlistset h j i q
+  | OEmCtor is dt cp f => exec_emctor h is dt cp f
+  | OEmClone c => exec_emclone h c
+  | OSel c idxs => exec_sel h c idxs
+  | OTcSel t idxs => exec_tcsel h t idxs
+  | OTrSel k idxs => exec_trsel h k idxs
+  | OTcClone t => exec_tcclone h t
   end.
 
 Definition run (h : heap) (os : list op) : heap := fold_left (fun h o => fst (exec h o)) os h.
@@ -921,6 +1028,7 @@ Definition sep_op (o : op) : bool :=
   | OView _ | OGet _ _ | OTrGet _ _ => false
   | OAppend _ _ cp _ => cp
   | OExtend _ _ cp _ => cp
+  | OEmCtor _ _ cp _ => cp
   | _ => true
   end.
 
@@ -980,6 +1088,22 @@ Fixpoint sp_extend (s : spec) (c : nat) (vs : list value) (force : bool) : spec 
   | v :: r => match sp_append s c v force with
               | (s1, Ok) => sp_extend s1 c r force
               | (s1, Err e) => (s1, Err e)
+              end
+  end.
+
+(* the constructor of the list model: an emulsion with the given dtype filled by extend; all or nothing *)
+Definition sp_construct (s : spec) (dt : option dtype) (vs : list value) (force : bool) : spec * outcome :=
+  match sp_extend (sp_ems s (s_ems s ++ [(dt, [])])) (length (s_ems s)) vs force with
+  | (s1, Ok) => (s1, Ok)
+  | (_, Err x) => (s, Err x)
+  end.
+
+Fixpoint sp_clone_ems (s : spec) (es : list (option dtype * list value)) : spec * outcome :=
+  match es with
+  | [] => (s, Ok)
+  | e :: r => match sp_construct s (fst e) (snd e) false with
+              | (s1, Ok) => sp_clone_ems s1 r
+              | (s1, Err x) => (s1, Err x)
               end
   end.
 
@@ -1197,6 +1321,55 @@ Definition spec_step (s : spec) (o : op) : spec * outcome :=
     match nth_error (s_tvars s) j with
     | None => (s, Err EIndex)
     | Some ts => if i <? length ts then (sp_tvars s (upd (s_tvars s) j (upd ts i q)), Ok) else (s, Err EIndex)
+    end
+  | OEmCtor is dt _ f =>
+    match mapM (nth_error (s_hnd s)) is with
+    | None => (s, Err EIndex)
+    | Some vs =>
+      match dt with
+      | None => sp_construct s None vs f
+      | Some i => match nth_error (s_hnd s) i with
+                  | None => (s, Err EIndex)
+                  | Some v => sp_construct s (Some (dtype_of v)) vs f
+                  end
+      end
+    end
+  | OEmClone c =>
+    match nth_error (s_ems s) c with
+    | None => (s, Err EIndex)
+    | Some e => sp_construct s (fst e) (snd e) false
+    end
+  | OSel c idxs =>
+    match nth_error (s_ems s) c with
+    | None => (s, Err EIndex)
+    | Some (_, vs) => (sp_new_em s (sel idxs vs), Ok)
+    end
+  | OTcSel t idxs =>
+    match nth_error (s_tcs s) t with
+    | None => (s, Err EIndex)
+    | Some (ts, cs) =>
+      match mapM (nth_error (s_ems s)) (sel idxs cs) with
+      | None => (s, Err EDangling)
+      | Some es => sp_build_tc s es (sel idxs ts)
+      end
+    end
+  | OTrSel k idxs =>
+    match nth_error (s_trs s) k with
+    | None => (s, Err EIndex)
+    | Some (ts, dvs) => sp_build_tr s (sel idxs dvs) (sel idxs ts)
+    end
+  | OTcClone t =>
+    match nth_error (s_tcs s) t with
+    | None => (s, Err EIndex)
+    | Some (ts, cs) =>
+      match mapM (nth_error (s_ems s)) cs with
+      | None => (s, Err EDangling)
+      | Some es =>
+        match sp_clone_ems s es with
+        | (s1, Ok) => (sp_tcs s1 (s_tcs s1 ++ [(ts, seq (length (s_ems s)) (length es))]), Ok)
+        | (_, Err x) => (s, Err x)
+        end
+      end
     end
   end.
 
